@@ -50,7 +50,7 @@ CROPS = [("Wheat", "10/15"), ("Maize", "05/01"), ("Potato", "04/01"), ("Tomato",
 SOILS = ["SandyLoam", "Clay", "lowKsub"]
 STRATS = [
     ("rainfed", {"method": 0}, "FC"),
-    ("smt", {"method": 1, "SMT": [80, 70, 60, 50]}, "FC"),
+    ("smt", {"method": 1, "SMT": [80, 70, 60, 50]}, ("Pct", 50)),   # 50 % TAW: the threshold is exceeded on day 1
     ("interval", {"method": 2, "IrrInterval": 7}, "FC"),
     ("schedule", {"method": 3, "schedule": "rel", "MaxIrr": 30}, "FC"),
     ("net", {"method": 4, "NetIrrSMT": 80}, "WP"),          # initial water at WP: pre-irrigation fires
@@ -218,8 +218,8 @@ def lattice(tier, seed):
                         year = 1980 + rng.randint(0, 15)
                         cfgs.append(base_cfg(crop, pl, soil, st, gw, wx, year))
         desc = ("half fraction (index-parity = seed parity) of crops(5: Wheat, Maize, Potato, MaizeGDD, AlfalfaGDD) x "
-                "soils(3: SandyLoam, Clay, custom layered lowKsub) x strategies(6: rainfed, SMT 80/70/60/50, 7-day interval, "
-                "schedule, net irrigation 80% with initial water at WP, constant 3 mm/d; initial water FC otherwise) x "
+                "soils(3: SandyLoam, Clay, custom layered lowKsub) x strategies(6: rainfed, SMT 80/70/60/50 with initial water at 50% TAW, "
+                "7-day interval, schedule, net irrigation 80% with initial water at WP, constant 3 mm/d; initial water FC otherwise) x "
                 "groundwater(off, constant 1.5 m), Tunis weather, seeded start year 1980-1995, 3 seasons")
     else:
         for (crop, pl) in CROPS:
@@ -237,7 +237,8 @@ def lattice(tier, seed):
                             cfgs.append(base_cfg(crop, pl, soil, st, gw, wx, year, iwc))
         desc = ("full product crops(7: Wheat, Maize, Potato, Tomato, MaizeGDD, WheatGDD, AlfalfaGDD) x soils(3) x strategies(6) x "
                 "groundwater(off, constant 1.5 m) x weather(3: Tunis, Champion, synthetic mixed [with 50% TAW initial water "
-                "except net irrigation at WP]), seeded start years, 3 seasons")
+                "except net irrigation at WP]), seeded start years, 3 seasons; initial water FC except SMT (50% TAW) and net "
+                "irrigation (WP)")
     for i, c in enumerate(cfgs):
         c["idx"] = i
     return cfgs, desc
